@@ -14,7 +14,9 @@ THEOREMS = ['Dsd.C07.' + t for t in THEOREM_NAMES] + ['Dsd.PyExprs.py_wrap_eq_mo
                                                          # rotate_complex_once as written in the source (Gen/PyFuncs.lean)
                                                          'Dsd.PyFuncs.py_rotate_complex_once_eq', 'Dsd.PyFuncs.py_rotate_single',
                                                          'Dsd.PyFuncs.py_rotate_pairs', 'Dsd.PyFuncs.py_rotate_error_kind',
-                                                         'Dsd.PyFuncs.py_rotate_short_structure_faults']
+                                                         'Dsd.PyFuncs.py_rotate_short_structure_faults',
+                                                         # rotate_complex_pt (recursive generator) as written in the source
+                                                         'Dsd.PyFuncs.py_rotate_complex_pt_eq', 'Dsd.PyFuncs.py_rotate_empty_stab_faults']
 ASSUMPTIONS = [
     'rotate_complex_once / rotate_complex_pt are hand-modelled (Model/Complex.lean: rotateOnce, rotatePtOnce, rotationsPt) and tied '
     'to the code by the correspondence streams rot1 / rotpt',
@@ -30,7 +32,8 @@ MANIFEST = {
             'exhaustive correspondence over every well-formed structure up to a bounded size; the generators, the object methods '
             'rotate()/rotate_pt(), rotate_pairtable_loc and input immutability are checked on the real code by an independent '
             'label-transport oracle.'
-            ' STATEMENT LEVEL, FROM THE SOURCE: rotate_complex_once is transcribed statement by statement from the working tree (Gen/PyFuncs.lean, translator/pyfunc.py) and proved equal to the model for all sequence / structure pairs of equal length (py_rotate_complex_once_eq), so rotateOnce_pairs holds of the code as written (py_rotate_pairs); for unequal lengths the transcription, unlike the net-effect model, raises IndexError like the code (py_rotate_short_structure_faults, and the source-derived stream on mismatched inputs).',
+            ' STATEMENT LEVEL, FROM THE SOURCE: rotate_complex_once is transcribed statement by statement from the working tree (Gen/PyFuncs.lean, translator/pyfunc.py) and proved equal to the model for all sequence / structure pairs of equal length (py_rotate_complex_once_eq), so rotateOnce_pairs holds of the code as written (py_rotate_pairs); for unequal lengths the transcription, unlike the net-effect model, raises IndexError like the code (py_rotate_short_structure_faults, and the source-derived stream on mismatched inputs).'
+            ' rotate_complex_pt (recursive generator, nested rotate_locus, wrap) is transcribed from the source as well and equals rotationsPt for every non-empty strand table (py_rotate_complex_pt_eq).',
     'note': 'wrap and ComplexS.rotate_pairtable_loc are TRANSLATED from the source on every run (Gen/PyExprs.lean) and proved equal to the '
             'model\'s wrap / rotLoc (py_wrap_eq_model, py_rotate_pairtable_loc_eq); '
             'trusted base as in DESIGN.md section 3.',
